@@ -60,14 +60,28 @@ func checkColumnsCode(w *World, r *Result) {
 	var fl *fieldLoop
 	var fls []*fieldLoop
 	for _, l := range fieldLoops(w) {
-		if l.fn == fi && l.kind == "Column" {
-			if fl == nil {
-				fl = l
+		if l.fn != fi || l.kind != "Column" {
+			continue
+		}
+		// only the loops that build the per-column text lists (a loop that merely filters the columns into another
+		// slice is not one of them; what the list loops then range over is AGR-C05e's question)
+		textLists := false
+		for _, a := range appendStmts(info, l.rs.Body, "") {
+			if t := info.TypeOf(a.Lhs[0]); t != nil && t.String() == "[]string" {
+				textLists = true
 			}
-			if l.over != fl.over {
-				Undecided("newColumnsCode: loops over two different column lists (%s, %s)", fl.over, l.over)
-			}
-			fls = append(fls, l)
+		}
+		if !textLists {
+			continue
+		}
+		if fl == nil {
+			fl = l
+		}
+		fls = append(fls, l)
+	}
+	for _, l := range fls {
+		if l.over != fl.over {
+			fl = l // the later loop decides (it holds the primary test); AGR-C05e compares its collection with ta.Columns
 		}
 	}
 	if fl == nil {
